@@ -394,6 +394,33 @@ def r05_4(ctx, v, g, helpers):
                 empt = [t_ for t_, pol_ in gs if (pol_ and (("len(" in t_ and ("== 0" in t_ or "< 1" in t_)) or t_.endswith("== []"))) or (not pol_ and t_.isidentifier())]
                 if empt:
                     ctx.violated("R05.4", scope.where(rs), f"the search of one region stops the command when it finds no indexed node (`{empt[0][:50]}`): in a list of regions, a region that covers only nodes without alignments makes the records of all the other regions disappear (a --node list with such a node still prints the others)", key_of(scope, f"empty-region-aborts:{empt[0][:40]}"))
+    # ... nor does any other function of the command turn a single region away by what the index happens to contain (a contig
+    # without indexed nodes, a start beyond the last indexed node): the index lists aligned nodes only
+    for fn_ in ctx.repo.module("gaftools.cli.view").funcs.values():
+        idx_params = [p_ for p_ in fn_.params if p_ in ("index", "ind", "idx", "index_dict", "ind_dict")]
+        reg_params = [p_ for p_ in fn_.params if "region" in p_]
+        if not idx_params or not reg_params:
+            continue
+        tainted = set(idx_params)
+        for _ in range(3):
+            for st_ in walk_own(fn_.node):
+                tg_ = None
+                if isinstance(st_, ast.Assign) and any(isinstance(x_, ast.Name) and x_.id in tainted for x_ in ast.walk(st_.value)):
+                    tg_ = st_.targets[0]
+                elif isinstance(st_, ast.For) and any(isinstance(x_, ast.Name) and x_.id in tainted for x_ in ast.walk(st_.iter)):
+                    tg_ = st_.target
+                    for s2_ in ast.walk(st_):
+                        if isinstance(s2_, ast.Assign) and isinstance(s2_.targets[0], ast.Subscript) and isinstance(s2_.targets[0].value, ast.Name):
+                            tainted.add(s2_.targets[0].value.id)
+                if tg_ is not None:
+                    tainted |= {x_.id for x_ in ast.walk(tg_) if isinstance(x_, ast.Name)} if not isinstance(tg_, ast.Subscript) else ({tg_.value.id} if isinstance(tg_.value, ast.Name) else set())
+        for lp_ in walk_own(fn_.node):
+            if isinstance(lp_, ast.For) and any(isinstance(x_, ast.Name) and x_.id in reg_params for x_ in ast.walk(lp_.iter)):
+                for rs in ast.walk(lp_):
+                    if isinstance(rs, ast.Raise):
+                        gs = [norm(t_) for t_, _p in _guards_of(fn_.node, rs) if tainted & {x_.id for x_ in ast.walk(t_) if isinstance(x_, ast.Name)}]
+                        if gs:
+                            ctx.violated("R05.4", fn_.where(rs), f"{fn_.qualname} stops the command for one region because of what the index contains (`{gs[0][:60]}`): the index lists only nodes that carry alignments, so a region over an unaligned stretch (past the last aligned node of its contig, on a contig without alignments) makes the records of the other regions of the same command disappear", key_of(fn_, f"region-rejected-by-index:{gs[0][:40]}"))
     asg = [st for st in walk_stmts(region_loop.body) if isinstance(st, ast.Assign) and st.value is call]
     if not asg:
         raise AnalysisError("R05.4", g.where(call), "the search result is not bound to a variable")
@@ -407,6 +434,9 @@ def r05_4(ctx, v, g, helpers):
             continue
         searched = any(e.kind == "stmt" and e.node is asg[0] for e in p.events)
         if not searched:
+            memo = [e.node for e in p.events if e.kind == "stmt" and isinstance(e.node, ast.Assign) and norm(e.node.targets[0]) == found and ((isinstance(e.node.value, ast.Call) and isinstance(e.node.value.func, ast.Attribute) and e.node.value.func.attr == "get") or isinstance(e.node.value, ast.Subscript))]
+            if memo:
+                raise AnalysisError("R05.4", g.where(memo[0]), f"the nodes of a region may come out of a table (`{norm(memo[0].value)[:50]}`) instead of a search in this iteration: that the table holds the search result of the same region is not followed by this rule")
             bad = (p, "a region is skipped without being searched")
             break
         # after the search: the whole found list must flow into res
